@@ -10,6 +10,7 @@ import (
 	"sort"
 	"strings"
 	"testing"
+	"time"
 
 	"github.com/insomniacslk/dhcp/dhcpv4"
 	"github.com/insomniacslk/dhcp/dhcpv6"
@@ -157,6 +158,7 @@ var poisonFaults = map[string]int{}
 
 func judge(r *mon.Rec, fam string, wire, next []byte, rng *rand.Rand, onlyPattern string) {
 	rp := replay{Fam: fam, Wire: mon.Hex(wire), Next: mon.Hex(next)}
+	r.Current(rp)
 	src := append([]byte{}, wire...)
 	v, _, err := decode(fam, src)
 	if err != nil {
@@ -318,6 +320,7 @@ func TestCheck(t *testing.T) {
 		judge(r, rp.Fam, mon.UnHex(rp.Wire), mon.UnHex(rp.Next), r.Rand("replay", 0), rp.Pattern)
 		return
 	}
+	r.Watchdog(60 * time.Second)
 	typed := v6util.TypedCodes()
 	isTyped := func(c int) bool { _, ok := typed[c]; return ok }
 	hits := map[int]int{}
